@@ -517,6 +517,7 @@ func c15Run(c *fw.Case, kind string) {
 	var tagSeq uint64
 	var hmu sync.Mutex
 	var history []porcupine.Operation
+	var unknownOps int64
 	finalVer := map[string]uint64{}
 	lastWriteAt := map[string]int64{}
 	record := func(client int, in c15In, call int64, out c15Out) {
@@ -524,6 +525,8 @@ func c15Run(c *fw.Case, kind string) {
 		hmu.Lock()
 		if !out.Unknown {
 			history = append(history, porcupine.Operation{ClientId: client, Input: in, Call: call, Output: out, Return: ret})
+		} else {
+			unknownOps++
 		}
 		if out.OK && in.Kind != "get" && out.Ver > finalVer[in.Key] {
 			finalVer[in.Key] = out.Ver
@@ -624,28 +627,79 @@ func c15Run(c *fw.Case, kind string) {
 			}
 		}(cl)
 	}
-	// racing watchers, cancellations and abandoned consumers while the writers run
-	for i := 0; i < 4; i++ {
-		time.Sleep(time.Duration(1+r.Intn(4)) * time.Millisecond)
-		s := stores[r.Intn(len(stores))]
-		key := ""
-		if r.Chance(1, 2) {
-			key = keys[r.Intn(len(keys))]
+	// racing watchers, cancellations and abandoned consumers while the writers run (in a goroutine of its own: a store
+	// that a cancelled watch has wedged blocks Watch as well, and that must end as a verdict, not as a hung check)
+	wg.Add(1)
+	go func() {
+		defer wg.Done()
+		for i := 0; i < 4; i++ {
+			time.Sleep(time.Duration(1+r.Intn(4)) * time.Millisecond)
+			s := stores[r.Intn(len(stores))]
+			key := ""
+			if r.Chance(1, 2) {
+				key = keys[r.Intn(len(keys))]
+			}
+			w := startWatcher(s, key, r.Chance(2, 3), true)
+			d := time.Duration(1+r.Intn(3)) * time.Millisecond
+			if r.Chance(1, 3) {
+				// a consumer that stops reading and then cancels (what a Set handler does when it has its answer)
+				w.abandon.Store(true)
+				go func() { time.Sleep(d); w.cancel() }()
+				c.Count("abandoned_watchers", 1)
+			} else if r.Chance(1, 4) {
+				go func() { time.Sleep(d); w.cancel() }()
+				w.abandon.Store(true)
+				c.Count("cancelled_watchers", 1)
+			}
 		}
-		w := startWatcher(s, key, r.Chance(2, 3), true)
-		d := time.Duration(1+r.Intn(3)) * time.Millisecond
-		if r.Chance(1, 3) {
-			// a consumer that stops reading and then cancels (what a Set handler does when it has its answer)
-			w.abandon.Store(true)
-			go func() { time.Sleep(d); w.cancel() }()
-			c.Count("abandoned_watchers", 1)
-		} else if r.Chance(1, 4) {
-			go func() { time.Sleep(d); w.cancel() }()
-			w.abandon.Store(true)
-			c.Count("cancelled_watchers", 1)
+	}()
+	// wait for the clients. Calls that never return are a violation of their own ("cancelling a watch never disturbs
+	// the store"); they are told from a starved machine by two observations: no call of any client has returned for
+	// 60 s, and a fresh store object on the same cluster answers a read promptly
+	finished := make(chan struct{})
+	go func() { wg.Wait(); close(finished) }()
+	lastDone, quietSince := int64(-1), time.Now()
+waiting:
+	for {
+		select {
+		case <-finished:
+			break waiting
+		case <-time.After(500 * time.Millisecond):
+		}
+		hmu.Lock()
+		n := int64(len(history)) + unknownOps
+		hmu.Unlock()
+		if n != lastDone {
+			lastDone, quietSince = n, time.Now()
+			continue
+		}
+		if time.Since(quietSince) < 60*time.Second {
+			continue
+		}
+		probe := make(chan error, 1)
+		go func() {
+			fresh, err := c15Stores(kind, client, keys)
+			if err == nil {
+				_, err = fresh.get(context.Background(), keys[0])
+				if errors.IsNotFound(err) {
+					err = nil
+				}
+			}
+			probe <- err
+		}()
+		select {
+		case err := <-probe:
+			if err == nil {
+				c.Violate("liveness", "store/"+kind+"/calls-never-return", fmt.Sprintf("no call on the store objects under test has returned for 60 s (%d operations completed, the clients are still inside their calls) while a fresh store object on the same cluster answers at once: the store objects are wedged (watchers were abandoned and cancelled during the history)", n), nil)
+				return
+			}
+			c.Inconclusive("store calls hang and the cluster does not answer a fresh store object either: " + err.Error())
+			return
+		case <-time.After(20 * time.Second):
+			c.Inconclusive("store calls hang and the cluster does not answer a fresh store object either")
+			return
 		}
 	}
-	wg.Wait()
 	c.Count("operations", int64(len(history)))
 	for _, o := range history {
 		if in := o.Input.(c15In); in.Kind == "update" {
